@@ -96,10 +96,106 @@ inductive Cmp where
   | eq | ne | lt | le | gt | ge
   deriving DecidableEq, Repr, Inhabited
 
+/-! ### expressions of trigger bodies and WHEN clauses over OLD / NEW / the base row -/
+
+inductive TBin where
+  | add | sub
+  | eq | ne | lt | le | gt | ge
+  | and | or
+  deriving DecidableEq, Repr, Inhabited
+
+/-- `ColumnRef` (`col .base c`), `PseudoVariable` (`col .old c`, `col .new c`), literals, `+ -`,
+comparisons, `AND` / `OR`, searched `CASE WHEN c THEN t ELSE e END`, `COALESCE(a, b)` -/
+inductive TExpr where
+  | lit (v : Value)
+  | col (s : Src) (c : Nat)
+  | bin (op : TBin) (a b : TExpr)
+  | ite (c t e : TExpr)
+  | coalesce (a b : TExpr)
+  deriving DecidableEq, Repr, Inhabited
+
+/-- how a column reference resolves: by its tag (base row / OLD / NEW) and its position -/
+abbrev Env := Src → Nat → Except TErr Value
+
+def tbinV (op : TBin) (a b : Value) : Except TErr Value :=
+  match op with
+  | .add | .sub =>
+    match a, b with
+    | .null, _ => .ok .null
+    | _, .null => .ok .null
+    | .int x, .int y => .ok (.int (if op == .add then x + y else x - y))
+    | _, _ => .error .other
+  | .and =>
+    match a, b with
+    | .bool false, _ => .ok (.bool false)
+    | _, .bool false => .ok (.bool false)
+    | .bool true, .bool true => .ok (.bool true)
+    | .null, .bool true => .ok .null
+    | .bool true, .null => .ok .null
+    | .null, .null => .ok .null
+    | _, _ => .error .other
+  | .or =>
+    match a, b with
+    | .bool true, _ => .ok (.bool true)
+    | _, .bool true => .ok (.bool true)
+    | .bool false, .bool false => .ok (.bool false)
+    | .null, .bool false => .ok .null
+    | .bool false, .null => .ok .null
+    | .null, .null => .ok .null
+    | _, _ => .error .other
+  | _ =>
+    match a, b with
+    | .null, _ => .ok .null
+    | _, .null => .ok .null
+    | .int x, .int y =>
+      .ok (.bool (match op with
+        | .eq => x == y
+        | .ne => x != y
+        | .lt => decide (x < y)
+        | .le => decide (x ≤ y)
+        | .gt => decide (x > y)
+        | _ => decide (x ≥ y)))
+    | _, _ => .error .other
+
+/-- evaluation: every column reference is resolved through the environment *with its tag* -/
+def TExpr.evalWith (ρ : Env) : TExpr → Except TErr Value
+  | .lit v => .ok v
+  | .col s c => ρ s c
+  | .bin op a b =>
+    match a.evalWith ρ with
+    | .error e => .error e
+    | .ok x =>
+      match b.evalWith ρ with
+      | .error e => .error e
+      | .ok y => tbinV op x y
+  | .ite c t e =>
+    match c.evalWith ρ with
+    | .error er => .error er
+    | .ok (.bool true) => t.evalWith ρ
+    | .ok _ => e.evalWith ρ
+  | .coalesce a b =>
+    match a.evalWith ρ with
+    | .error e => .error e
+    | .ok .null => b.evalWith ρ
+    | .ok v => .ok v
+
+/-- replace every column reference the environment resolves by its value -/
+def TExpr.subst (ρ : Env) : TExpr → TExpr
+  | .lit v => .lit v
+  | .col s c =>
+    match ρ s c with
+    | .ok v => .lit v
+    | .error _ => .col s c
+  | .bin op a b => .bin op (a.subst ρ) (b.subst ρ)
+  | .ite c t e => .ite (c.subst ρ) (t.subst ρ) (e.subst ρ)
+  | .coalesce a b => .coalesce (a.subst ρ) (b.subst ρ)
+
 /-- the WHEN expressions used: `<src>.Cc <op> k` and the bare column `<src>.Cc` (not boolean) -/
 inductive WExpr where
   | cmp (s : Src) (c : Nat) (op : Cmp) (k : Int)
   | raw (s : Src) (c : Nat)
+  /-- a general expression over the base row, OLD and NEW -/
+  | expr (e : TExpr)
   deriving DecidableEq, Repr, Inhabited
 
 def Cmp.holds (op : Cmp) (a b : Int) : Bool :=
@@ -130,6 +226,15 @@ def fetch (s : Src) (c : Nat) (old new : Option Row) (base : Row) : Except TErr 
     | some v => .ok v
     | none => .error .other
 
+/-- the environment of a trigger firing: OLD and NEW as handed to the trigger; plain column
+references read `base` (the NEW-else-OLD row for WHEN, the scanned row inside a body statement,
+nothing in an INSERT … VALUES item) -/
+def envOf (old new base : Option Row) : Env := fun s c =>
+  match s, base with
+  | .base, none => .error .other
+  | .base, some b => fetch .base c old new b
+  | s, _ => fetch s c old new []
+
 /-- `evaluate_when_condition`: base row = NEW, else OLD, else an error; `Boolean(b)` → `b`,
 `Null` → false, anything else is an error -/
 def evalWhen (w : WExpr) (old new : Option Row) : Except TErr Bool :=
@@ -146,6 +251,12 @@ def evalWhen (w : WExpr) (old new : Option Row) : Except TErr Bool :=
     | .raw s c =>
       match fetch s c old new base with
       | .error e => .error e
+      | .ok .null => .ok false
+      | .ok (.bool b) => .ok b
+      | .ok _ => .error .whenType
+    | .expr e =>
+      match e.evalWith (envOf old new (some base)) with
+      | .error er => .error er
       | .ok .null => .ok false
       | .ok (.bool b) => .ok b
       | .ok _ => .error .whenType
